@@ -62,6 +62,11 @@ def new_container(kind):
     if kind == "loaded":
         seed = DiameterMessage(DiameterHeader(command_code=272, application_id=4, flags=0x80), [make(0), make(3), make(6), make(1)])
         return DiameterMessage.load(seed.dump())[0]
+    if kind == "loaded-empty":
+        # a decoded message that carries no AVP at all (a bare 20-byte header), alone or after another message
+        seed = DiameterMessage(DiameterHeader(command_code=272, application_id=4, flags=0x80), [make(0)])
+        bare = DiameterMessage(DiameterHeader(command_code=280, application_id=0, hop_by_hop=5, end_to_end=6))
+        return DiameterMessage.load(seed.dump() + bare.dump())[1]
     if kind == "cer":
         from bromelia.messages import CER
         return CER(origin_host="host-a", origin_realm="realm", host_ip_address="10.0.0.1")
@@ -257,7 +262,7 @@ op = st.one_of(
     st.just({"op": "refresh"}),
 )
 cases = st.builds(lambda k, ops: {"container": k, "ops": ops},
-                  st.sampled_from(["message", "message", "loaded", "cer", "ulr", "grouped"]), st.lists(op, min_size=1, max_size=15))
+                  st.sampled_from(["message", "message", "loaded", "loaded-empty", "cer", "ulr", "grouped"]), st.lists(op, min_size=1, max_size=15))
 
 
 def features(case):
@@ -337,7 +342,7 @@ def main(ctx):
     col.extra["exhaustive_scope"] = f"all {k}^{depth} sequences of exactly {depth} operations over a {k}-operation alphabet on an empty message (invariants after every step, so all shorter sequences are covered as prefixes)"
     for path, rec in common.load_replays(PID):
         col.record(rec["case"], run_case(rec["case"]), nontrivial=True, classes=["replay"])
-    ctx.required_classes = sorted(NT) + ["container=grouped", "container=loaded", "container=cer", "container=ulr", "bfs"]
+    ctx.required_classes = sorted(NT) + ["container=grouped", "container=loaded", "container=loaded-empty", "container=cer", "container=ulr", "bfs"]
     ctx.assumptions = ["a fresh AVP object is used for every insertion (the same object is never listed twice)",
                        "operations refused with a library error must leave the container unchanged",
                        "exhaustive depth is 4 (quick) / 6 (thorough), not 12: 14^12 sequences are not affordable"]
